@@ -134,10 +134,13 @@ fn c18_policy_consults_matching_estimate() {
     let proof = proof_for::<f64::BaseElement>(&p);
     let conj = proof.security_level::<CrHash<128>>(true);
     kani::assume(conj >= 20);
-    assert!(proof.security_level::<CrHash<128>>(false) == 11);
+    let proven = proof.security_level::<CrHash<128>>(false);
     let min: u32 = kani::any();
+    // under Kani the stub is active (proven == 11). In a NATIVE replay stubs are not applied and `proven` is the real estimate: the
+    // caller's minimum is then placed just above it, so that the replay shows the policy accepting a proof below the minimum
+    let min = if proven == 11 { min } else { proven + 1 };
     let rp = AcceptableOptions::MinProvenSecurity(min).validate::<CrHash<128>>(&proof);
-    assert!(rp.is_err() == (11 < min));
+    assert!(rp.is_err() == (proven < min));
     let rc = AcceptableOptions::MinConjecturedSecurity(min).validate::<CrHash<128>>(&proof);
     assert!(rc.is_err() == (conj < min));
     kani::cover!(min > 11 && min <= conj);
